@@ -227,7 +227,7 @@ theorem frame_rejected_unchanged (s : RStream) (off : Nat) (data : Bytes) (fin :
     (s.handleStreamFrame off data fin cb).s.cur = s.cur ∧
     (s.handleStreamFrame off data fin cb).s.rpif = s.rpif ∧
     (s.handleStreamFrame off data fin cb).s.finalOffset = s.finalOffset := by
-  simp only [RStream.handleStreamFrame, h, RStream.isNewlyCompleted]
+  simp only [RStream.handleStreamFrame, h, FrameOut.complete, RStream.isNewlyCompleted]
   (repeat' split) <;> simp
 
 /-- **final_size / flow_limit (RESET_STREAM, RESET_STREAM_AT).** The same for a reset whose final size
@@ -242,7 +242,8 @@ theorem reset_rejected_unchanged (s : RStream) (finalSize reliable code : Nat) (
     (s.handleResetStreamFrame finalSize reliable code).s.finalOffset = s.finalOffset ∧
     (s.handleResetStreamFrame finalSize reliable code).s.cancelledRemotely = s.cancelledRemotely ∧
     (s.handleResetStreamFrame finalSize reliable code).s.reliableSize = s.reliableSize := by
-  simp only [RStream.handleResetStreamFrame, hs, Bool.false_eq_true, if_false, h, RStream.isNewlyCompleted]
+  simp only [RStream.handleResetStreamFrame, hs, Bool.false_eq_true, if_false, h, FrameOut.complete,
+    RStream.isNewlyCompleted]
   (repeat' split) <;> simp
 
 /-- the hypotheses are satisfiable: with final size 100 known, a frame ending at 120 is rejected -/
